@@ -126,6 +126,8 @@ def scenarios(tier):
             yield ('message', f'structured{k}', m)
     for k, m in enumerate(shapes()):
         yield ('message', f'shape{k}', m)
+    for backend in ('dict', '++', 'fs'):
+        yield ('expunged', backend)
 
 
 def exception_site(exc):
@@ -275,7 +277,58 @@ async def scenario(sc):
     return errors, sig, nparsed, eightbit
 
 
+async def expunged_scenario(backend):
+    """session A has two messages selected; session B expunges them; A, not yet told, fetches every attribute of them.
+    Returns (errors, responses parsed): A's complete byte stream must parse, A's connection must survive."""
+    if backend == 'dict':
+        w = await World().start()
+        login = {}
+    else:
+        from .imapdrv import MaildirWorld
+        w = await MaildirWorld(layout=backend).start(users=(('alice', 'apass'),))
+        login = dict(user=b'alice', pw=b'apass')
+    a = await w.client('a', **login)
+    b = await w.client('b', **login)
+    await a.cmd(b'CREATE Box')
+    for i in range(2):
+        m = b'Subject: m%d\r\nFrom: a@b.c\r\nContent-Type: multipart/mixed; boundary=x\r\n\r\n--x\r\n\r\npart\r\n--x--\r\n' % i
+        await a.cmd(b'APPEND Box ' + lit(m))
+    await a.cmd(b'SELECT Box')
+    await b.cmd(b'SELECT Box')
+    await b.cmd(b'STORE 1:* +FLAGS.SILENT (\\Deleted)')
+    await b.cmd(b'EXPUNGE')
+    errors = []
+    conns = [a]
+    cur = a
+    for line in FETCH_ALL + (b'FETCH 1 (UID RFC822.HEADER)', b'FETCH 2 (BODY.PEEK[HEADER.FIELDS (Subject)] BODYSTRUCTURE)', b'UID FETCH 1:* (ENVELOPE)',
+                             b'STORE 1 +FLAGS (\\Seen)', b'COPY 1:* Box', b'NOOP', b'FETCH 1:* (UID)'):
+        r = await cur.cmd(line)
+        if r['closed']:
+            exc = cur.exception()
+            errors.append(f'{backend}: after another session expunged the messages, {line[:60]!r} ended the connection'
+                          + (f' with {exception_site(exc)}' if exc else '') + f' (answers so far {b"".join(r["all"])[-60:]!r})')
+            cur = await w.client('a%d' % len(conns), **login)
+            conns.append(cur)
+            await cur.cmd(b'SELECT Box')
+    n = 0
+    for c in conns:
+        parsed, errs, eb = parse_stream(bytes(c.writer.buf), {r['tag'] for r in c.log})
+        n += len(parsed)
+        errors += [f'{backend}: FETCH of messages expunged by another session: {e}' for e in errs]
+    await w.close()
+    if hasattr(w, 'cleanup'):
+        w.cleanup()
+    return errors, n
+
+
 def _worker(sc):
+    if sc[0] == 'expunged':
+        try:
+            errs, n = run(expunged_scenario(sc[1]))
+        except Exception as exc:    # noqa
+            import traceback
+            return sc, [f'harness exception {exc!r} {traceback.format_exc()[-500:]}'], (), 0, 0
+        return sc, errs, ('expunged', sc[1], n), n, 0
     try:
         errs, sig, n, eb = run(scenario(sc))
     except Exception as exc:    # noqa
@@ -285,6 +338,8 @@ def _worker(sc):
 
 
 def describe(sc):
+    if sc[0] == 'expunged':
+        return dict(kind='fetch of messages expunged by another session', backend=sc[1])
     if sc[0] == 'header':
         return dict(kind='header', field=sc[1].decode(), value=repr(sc[2]))
     if sc[0] == 'message':
